@@ -109,6 +109,11 @@ def runOp : P String := do
     match graphFromMolfileText t with
     | .ok g => pure (showGraph g)
     | .error e => pure (showErr e)
+  | "FILE" =>
+    let t ← str
+    match graphFromFileContent t with
+    | .ok g => pure (showGraph g)
+    | .error e => pure (showErr e)
   | "SPLICE" =>
     let ls ← strList
     match concatLinesWithDash ls with
